@@ -4,6 +4,8 @@ import SakuraVerif.Model.Expr
 import SakuraVerif.Model.Reserve
 import SakuraVerif.Lemmas.SutotonTerm
 import SakuraVerif.Gen.Consts
+import SakuraVerif.Lemmas.ScriptProgress
+import SakuraVerif.Lemmas.ScriptCheck
 /-! # C07 — compilation never crashes or hangs (what the model can carry; partial)
 
 Whether the *process* panics, aborts or hangs is a fact about the running Rust code; it is decided
@@ -14,6 +16,10 @@ Unicode) under a worker supervisor.  What the model carries, layer by layer:
 * **termination**: the loop machine of `exec` halts on every well-formed nest of loops (C05); WHILE
   and FOR stop at the iteration limit (C11); the sutoton preprocessor consumes at least one
   character per step once empty words are rejected, so `length + 1` steps always suffice;
+* **script layer** (literal model `Model.ScriptExec`, tied by the streams `scriptexec`/`exprexec`): every program whose
+  function table has no call cycle finishes — the fuel `needList` computes from the text suffices and more changes nothing,
+  because the counter cuts `WHILE`/`FOR` off after `maxLoop` passes — and on lexer-shaped programs the run never reaches the
+  model's failure state; user recursion without bound is the case the property excludes;
 * **panic-site audit** (frame fact regenerated on every run): the set of library functions that
   contain `.unwrap()` / `.expect(` is exactly the audited list, so a new unchecked unwrap breaks an
   obligation and triggers the search.
@@ -63,6 +69,47 @@ theorem C07_arms_progress (items : List Sut.Item) (h : Sut.NonEmptyNames items) 
     (Sut.getTokenS sp (c :: cs)).2.length < (c :: cs).length ∧ (Sut.defineWord items cs).2.length ≤ cs.length ∧
     (∀ it, Sut.firstMatch items (c :: cs) = some it → 1 ≤ it.name.length) :=
   ⟨Sut.getTokenS_len_lt sp c cs hsp, Sut.defineWord_len items cs, fun it hf => Sut.firstMatch_pos items h _ it hf⟩
+
+/-- **scripts finish**: for every function table without a call cycle (`rankedB`, decided on the real table by the driver) and
+    every token list, the fuel `needList (nfOf fns) toks` — one per list member and nesting level, `maxLoop + 2` per `WHILE`/`FOR`,
+    the callee's need per call — is enough: any further fuel gives the same final state.  No hypothesis on conditions, bodies or
+    values: the loop counter alone bounds the passes. -/
+theorem C07_script_terminates (fns : List Sx.Fn) (toks : List Sx.Tok) (hr : Sx.rankedB fns = true) (extra : Nat) :
+    Sx.run fns toks (Sx.needList (Sx.nfOf fns) toks + extra) = Sx.run fns toks (Sx.needList (Sx.nfOf fns) toks) :=
+  Sx.ranked_run_fuel_stable fns (Sx.rankedB_sound fns hr) toks extra
+
+/-- the same for any sound table of per-function needs (`FnsNeed`), from any state -/
+theorem C07_script_fuel_independent (fns : List Sx.Fn) (nf : List Nat) (h : Sx.FnsNeed fns nf) (toks : List Sx.Tok) (s : Sx.St)
+    (f extra : Nat) (hf : Sx.needList nf toks ≤ f) : Sx.execList fns (f + extra) toks s = Sx.execList fns f toks s :=
+  Sx.run_fuel_stable fns nf h toks s f extra hf
+
+/-- **scripts never get stuck**: on a lexer-shaped program (`progB`, decided by the driver on the real token lists) without a call
+    cycle, run with at least its need as fuel, the model's failure state — fuel exhausted, unknown token shape or operator,
+    missing function or scope — is not reached, and the answer is the fuel-independent final state -/
+theorem C07_script_never_stuck (fns : List Sx.Fn) (toks : List Sx.Tok) (d : Nat) (hr : Sx.rankedB fns = true)
+    (hw : Sx.progB fns toks d = true) (extra : Nat) :
+    (Sx.run fns toks (Sx.needList (Sx.nfOf fns) toks + extra)).bad = false ∧
+    Sx.run fns toks (Sx.needList (Sx.nfOf fns) toks + extra) = Sx.run fns toks (Sx.needList (Sx.nfOf fns) toks) := by
+  obtain ⟨ht, hok⟩ := Sx.progB_sound fns toks d hw
+  exact ⟨Sx.run_not_stuck fns (Sx.nfOf fns) (Sx.ranked_fnsNeed fns (Sx.rankedB_sound fns hr)) hok toks ht _ (Nat.le_add_right _ _),
+    C07_script_terminates fns toks hr extra⟩
+
+/-- a `WHILE` pass past the limit stops the loop whatever the body did: the cut-off arm of the literal model -/
+theorem C07_while_limit_stops (line : Int) (k : Nat) (s : Sx.St) (hk : Sx.maxLoop ≤ k) : ∃ s', Sx.whileNext line k s = .stop s' := by
+  unfold Sx.whileNext
+  have : k + 1 > Sx.maxLoop := by omega
+  simp only [this, if_true]
+  exact ⟨_, rfl⟩
+
+-- non-vacuity: `WHILE(1){ PRINT(1) }` followed by a call of `FUNCTION FA(){ FOR(;1;){ } }` is lexer-shaped and has no call cycle
+def demoScriptFns : List Sx.Fn :=
+  [⟨[], [], [.mk .for_ 0 0 0 none [] (some [.mk .tokens 0 0 0 none [] (some []), .mk .tokens 0 0 0 none [] (some [.mk .constInt 1 0 0 none [] none]),
+      .mk .tokens 0 0 0 none [] (some []), .mk .tokens 0 0 0 none [] (some [])])]⟩]
+def demoScriptToks : List Sx.Tok :=
+  [.mk .while_ 0 0 1 none [] (some [.mk .tokens 0 0 0 none [] (some [.mk .constInt 1 0 0 none [] none]),
+      .mk .tokens 0 0 0 none [] (some [.mk .print 0 0 1 none [] (some [.mk .constInt 1 0 0 none [] none])])]),
+   .mk .callUser 0 0 2 none [] (some [])]
+example : Sx.rankedB demoScriptFns = true ∧ Sx.progB demoScriptFns demoScriptToks 8 = true := by decide
 
 /-- the audited list of functions that may call `.unwrap()` / `.expect(` -/
 theorem C07_unwrap_sites :
